@@ -549,22 +549,23 @@ fn strs(ids: &[StrId]) -> Vec<&'static str> {
     ids.iter().map(|&i| s(i)).collect()
 }
 
+// As in ptype.rs: construct, then assign every public field, so that what the
+// specification says is what the definition holds.
 fn build_field(f: &FieldSpec) -> scale_info::Field {
-    scale_info::Field::new(
-        f.name.map(s),
-        meta(f.ty),
-        f.type_name.map(s),
-        strs(&f.docs),
-    )
+    let mut out = scale_info::Field::new(None, meta(f.ty), None, Vec::new());
+    out.name = f.name.map(s);
+    out.type_name = f.type_name.map(s);
+    out.docs = strs(&f.docs);
+    out
 }
 
 pub fn build_variant(v: &VariantSpec) -> scale_info::Variant {
-    scale_info::Variant::new(
-        s(v.name),
-        v.fields.iter().map(build_field).collect(),
-        v.index,
-        strs(&v.docs),
-    )
+    let mut out = scale_info::Variant::new(s(v.name), Vec::new(), v.index, Vec::new());
+    out.name = s(v.name);
+    out.fields = v.fields.iter().map(build_field).collect();
+    out.index = v.index;
+    out.docs = strs(&v.docs);
+    out
 }
 
 pub fn build_field_pub(f: &FieldSpec) -> scale_info::Field {
@@ -573,35 +574,56 @@ pub fn build_field_pub(f: &FieldSpec) -> scale_info::Field {
 
 pub fn build_def(d: &DefSpec) -> TypeDef {
     match d {
-        DefSpec::Composite(fs) => TypeDefComposite::new(fs.iter().map(build_field)).into(),
-        DefSpec::Variant(vs) => TypeDefVariant::new(vs.iter().map(build_variant)).into(),
+        DefSpec::Composite(fs) => {
+            let mut d = TypeDefComposite::new(Vec::new());
+            d.fields = fs.iter().map(build_field).collect();
+            d.into()
+        }
+        DefSpec::Variant(vs) => {
+            let mut d = TypeDefVariant::new(Vec::new());
+            d.variants = vs.iter().map(build_variant).collect();
+            d.into()
+        }
         DefSpec::Sequence(t) => TypeDefSequence::new(meta(*t)).into(),
-        DefSpec::Array(n, t) => TypeDefArray::new(*n, meta(*t)).into(),
+        DefSpec::Array(n, t) => {
+            let mut d = TypeDefArray::new(0, meta(*t));
+            d.len = *n;
+            d.into()
+        }
         // not `TypeDefTuple::new`: that constructor erases PhantomData members,
         // a hand-written impl need not
-        DefSpec::Tuple(ts) => TypeDef::Tuple(TypeDefTuple {
-            fields: ts.iter().map(|t| meta(*t)).collect(),
-        }),
+        DefSpec::Tuple(ts) => {
+            let mut d = TypeDefTuple::new(Vec::new());
+            d.fields = ts.iter().map(|t| meta(*t)).collect();
+            TypeDef::Tuple(d)
+        }
         DefSpec::Compact(t) => TypeDefCompact::new(meta(*t)).into(),
-        DefSpec::BitSeq(a, b) => TypeDef::BitSequence(TypeDefBitSequence {
-            bit_store_type: meta(*a),
-            bit_order_type: meta(*b),
-        }),
+        DefSpec::BitSeq(a, b) => {
+            let mut d = TypeDefBitSequence::new::<u8, u8>();
+            d.bit_store_type = meta(*a);
+            d.bit_order_type = meta(*b);
+            TypeDef::BitSequence(d)
+        }
         DefSpec::Primitive(p) => PRIMITIVES[*p as usize % 15].clone().into(),
     }
 }
 
 pub fn build_param(p: &(StrId, Option<TyRef>)) -> TypeParameter {
-    TypeParameter::new(s(p.0), p.1.map(meta))
+    let mut out = TypeParameter::new(s(p.0), None);
+    out.name = s(p.0);
+    out.ty = p.1.map(meta);
+    out
 }
 
 pub fn build_type(spec: &NodeSpec) -> Type {
-    Type::new(
-        Path::from_segments_unchecked(spec.path.iter().map(|&i| s(i))),
-        spec.params.iter().map(build_param).collect::<Vec<_>>(),
-        build_def(&spec.def),
-        strs(&spec.docs),
-    )
+    let mut path = Path::from_segments_unchecked(Vec::<&'static str>::new());
+    path.segments = spec.path.iter().map(|&i| s(i)).collect();
+    let mut out = Type::new(path.clone(), Vec::new(), build_def(&spec.def), Vec::new());
+    out.path = path;
+    out.type_params = spec.params.iter().map(build_param).collect();
+    out.type_def = build_def(&spec.def);
+    out.docs = strs(&spec.docs);
+    out
 }
 
 /// `type_info()` of concrete node `c`.
